@@ -2,8 +2,10 @@ package props
 
 import (
 	"fmt"
+	"os"
 	"sort"
 	"strings"
+	"sync"
 	"testing"
 
 	"pgregory.net/rapid"
@@ -18,6 +20,35 @@ type c01Case struct {
 	Graph       *m.Graph    `json:"graph"`
 	ProfileText string      `json:"profile_text"`
 	DataText    string      `json:"data_text"`
+	// Busy: other goroutines compile an unrelated profile while this case is validated. What a validation reports
+	// must not depend on what else the process is doing (the schedule is not owned by the harness: a busy case is
+	// judged exactly like a quiet one, it merely gives interference a chance to show)
+	Busy bool `json:"busy,omitempty"`
+}
+
+const busyProfile = "profile: busy\nprefixes:\n  ex: \"http://ex.org/v#\"\nviolation:\n- b\nvalidations:\n  b:\n    targetClass: ex.Busy\n    propertyConstraints:\n      ex.e0 / ex.p0:\n        minCount: 1\n      ex.e1:\n        nested:\n          propertyConstraints:\n            ex.p1:\n              pattern: x\n"
+
+// whileBusy runs f while n goroutines keep compiling an unrelated profile.
+func whileBusy(n int, f func()) {
+	stop := make(chan struct{})
+	var wg sync.WaitGroup
+	for i := 0; i < n; i++ {
+		wg.Add(1)
+		go func() {
+			defer wg.Done()
+			for {
+				select {
+				case <-stop:
+					return
+				default:
+					compileProfile(busyProfile)
+				}
+			}
+		}()
+	}
+	f()
+	close(stop)
+	wg.Wait()
 }
 
 // rewrite applies random meaning-preserving steps.
@@ -185,6 +216,7 @@ func genC01(t *rapid.T) c01Case {
 	}
 	c.ProfileText = c.Profile.ToY().Print(m.YOpts{})
 	c.DataText = c.Graph.JSONLD(m.LDOpts{})
+	c.Busy = rapid.IntRange(0, 7).Draw(t, "busy") == 0
 	return c
 }
 
@@ -261,6 +293,7 @@ func genC01Wide(t *rapid.T) c01Case {
 	c.Graph = propositionalGraph(t, g.atoms)
 	c.ProfileText = c.Profile.ToY().Print(m.YOpts{})
 	c.DataText = c.Graph.JSONLD(m.LDOpts{})
+	c.Busy = rapid.IntRange(0, 7).Draw(t, "busy") == 0
 	return c
 }
 
@@ -286,7 +319,29 @@ func decideC01(c c01Case) ev.Verdict {
 	if err := m.YAMLMatches(c.ProfileText, c.Profile.ToY()); err != nil {
 		return ev.Verdict{Discard: true, Detail: err.Error()}
 	}
-	res := validateFixed(c.ProfileText, c.DataText)
+	var res call
+	if c.Busy {
+		reps := 1
+		if os.Getenv("VERIF_REPLAY") != "" {
+			reps = 30
+		}
+		whileBusy(3, func() {
+			for i := 0; i < reps; i++ {
+				res = validateFixed(c.ProfileText, c.DataText)
+				if i+1 < reps {
+					if v := judgeC01(c, res); !v.OK {
+						break
+					}
+				}
+			}
+		})
+	} else {
+		res = validateFixed(c.ProfileText, c.DataText)
+	}
+	return judgeC01(c, res)
+}
+
+func judgeC01(c c01Case, res call) ev.Verdict {
 	if res.failed() {
 		return ev.Violation("c01-call-failed:"+classifyErr(res), "validation call failed: %s\nprofile:\n%s", trunc(res.errString(), 600), c.ProfileText)
 	}
@@ -339,6 +394,9 @@ func decideC01(c c01Case) ev.Verdict {
 		v.Labels = append(v.Labels, "has-rewritten-twin")
 	}
 	v.Labels = append(v.Labels, "mode:"+c.Mode)
+	if c.Busy {
+		v.Labels = append(v.Labels, "validated-while-other-goroutines-compile")
+	}
 	v.Labels = append(v.Labels, graphShape(c.Graph, []string{"e0", "e1"})...)
 	v.NonTrivial = connectives > 0 && anyMixed
 	return v
